@@ -1,0 +1,22 @@
+//go:build verif && linux
+
+package cpupick
+
+// Thin exported wrappers for the verification harness (engine `cpupick`). No behaviour.
+
+func VerifArrange(cands []int, nodeOf, coreOf map[int]int, zeroCore int, routines int, h uint64) []int {
+	return arrange(cands, topology{nodeOf: nodeOf, coreOf: coreOf, zeroCore: zeroCore}, routines, h)
+}
+
+func VerifFlatTopology(cpus []int) (map[int]int, map[int]int, int) {
+	t := flatTopology(cpus)
+	return t.nodeOf, t.coreOf, t.zeroCore
+}
+
+func VerifPickCandidates(allowed, perf []int, routines int) []int {
+	return pickCandidates(allowed, perf, routines)
+}
+
+func VerifSplitmix64(x uint64) uint64 { return splitmix64(x) }
+
+func VerifParseCPUList(s string) ([]int, error) { return parseCPUList(s) }
